@@ -114,6 +114,10 @@ def run (cx : Ctx) (st : St) : List (String × Dist × Tok) → St
 def tpeDisc (low high step s : Rat) : Rat :=
   clip (low + (roundHE ((s - low) / step) : Rat) * step) low high
 
+/-- TPE, continuous (no step, linear scale): `np.clip(samples, low, high)` applied to the raw
+`_truncnorm.rvs` sample (repaired defect F33: the clip was missing) -/
+def tpeCont (low high s : Rat) : Rat := clip s low high
+
 /-- the same followed by `IntDistribution.to_external_repr` (`int(...)`) -/
 def tpeInt (low high step : Int) (res : Rat) : Int :=
   truncI (tpeDisc (low : Rat) (high : Rat) (step : Rat) res)
